@@ -461,14 +461,6 @@ func descendingCmp(f *ir.Func, call *ast.CallExpr) bool {
 // c09r5: renewals carry the roots over.
 func c09r5(c *Ctx) {
 	renew := c.P.Method("rhp", "Contractor", "RenewV2Contract")
-	isRootsTable := func(t types.Type) bool {
-		mt, ok := t.Underlying().(*types.Map)
-		if !ok || !ir.IsNamed(mt.Key(), ir.PkgPath("types"), "FileContractID") {
-			return false
-		}
-		sl, ok := mt.Elem().Underlying().(*types.Slice)
-		return ok && ir.IsNamed(sl.Elem(), ir.PkgPath("types"), "Hash256")
-	}
 	n := 0
 	for _, f := range c.P.Funcs {
 		if f.Obj == nil || f.Obj.Name() != renew.Name() || f.Lit != nil {
@@ -484,29 +476,81 @@ func c09r5(c *Ctx) {
 		c.VisitGraph(f)
 		ob := c.Ob(f, "roots-carried-over", f.Body.Pos())
 		carried, self := false, ""
+		// a table of roots per contract, or a table of records that hold the roots next to the revision
+		holdsRoots := func(t types.Type) bool {
+			if sl, ok := t.Underlying().(*types.Slice); ok && ir.IsNamed(sl.Elem(), ir.PkgPath("types"), "Hash256") {
+				return true
+			}
+			if st, ok := t.Underlying().(*types.Struct); ok {
+				for i := 0; i < st.NumFields(); i++ {
+					if sl, ok := st.Field(i).Type().Underlying().(*types.Slice); ok && ir.IsNamed(sl.Elem(), ir.PkgPath("types"), "Hash256") {
+						return true
+					}
+				}
+			}
+			return false
+		}
+		isTable := func(t types.Type) bool {
+			mt, ok := t.Underlying().(*types.Map)
+			return ok && ir.IsNamed(mt.Key(), ir.PkgPath("types"), "FileContractID") && holdsRoots(mt.Elem())
+		}
+		keyObj := func(e ast.Expr) types.Object {
+			o := f.ObjOf(e)
+			if o == nil {
+				return nil
+			}
+			return copySource(f, o)
+		}
 		for _, w := range f.WritesIn(f.Body, true) {
 			ix, ok := ast.Unparen(w.LHS).(*ast.IndexExpr)
 			if !ok || w.RHS == nil {
 				continue
 			}
 			tbl := f.FieldOf(ix.X)
-			if tbl == nil || !isRootsTable(tbl.Type()) {
+			if tbl == nil || !isTable(tbl.Type()) {
 				continue
 			}
-			k1 := f.ObjOf(ix.Index)
-			ir.Walk(w.RHS, false, func(x ast.Node) {
-				rx, ok := x.(*ast.IndexExpr)
-				if !ok || f.FieldOf(rx.X) != tbl {
-					return
-				}
-				k2 := f.ObjOf(rx.Index)
-				switch {
-				case k1 != nil && k2 != nil && k1 != k2:
-					carried = true
-				case k1 != nil && k1 == k2:
-					self = c.P.Pos(w.LHS.Pos())
-				}
-			})
+			k1 := keyObj(ix.Index)
+			// the stored value, with the locals it is built from resolved (a copy bound to a helper's parameter, the
+			// old entry looked up into a variable first)
+			var visit func(e ast.Expr, depth int)
+			visit = func(e ast.Expr, depth int) {
+				ir.Walk(e, false, func(x ast.Node) {
+					switch t := x.(type) {
+					case *ast.IndexExpr:
+						if rt := f.FieldOf(t.X); rt != nil && isTable(rt.Type()) {
+							k2 := keyObj(t.Index)
+							switch {
+							case k1 != nil && k2 != nil && k1 != k2:
+								carried = true
+							case k1 != nil && k1 == k2:
+								self = c.P.Pos(w.LHS.Pos())
+							}
+						}
+					case *ast.Ident:
+						if depth < 3 {
+							if o := origin(f, t); o != ast.Expr(t) {
+								visit(o, depth+1)
+							} else if v, isVar := f.ObjOf(t).(*types.Var); isVar && !v.IsField() && holdsRoots(v.Type()) {
+								// a record read by a comma-ok lookup or a helper: its tuple definition
+								if call, _ := tupleDef(f, v); call != nil {
+									for _, a := range call.Args {
+										visit(a, depth+1)
+									}
+								}
+								for _, d := range wholeDefs(f, v) {
+									if d.RHS == nil {
+										if rhs := ir.TupleRHS(d.Stmt); rhs != nil {
+											visit(rhs, depth+1)
+										}
+									}
+								}
+							}
+						}
+					}
+				})
+			}
+			visit(w.RHS, 0)
 		}
 		switch {
 		case carried:
